@@ -155,6 +155,10 @@ func c19Special(c *core.Ctx) {
 		c.Trivial()
 	}
 	checkDates(c, d, m, y, T)
+	if c.R.Bool(0.1) {
+		// "every run length" includes the empty run: the generator has nothing to write and must simply return
+		CheckEmptyRun(c, "DateGenerator", []PSet{{{float64(d)}, {float64(m)}, {float64(y)}}}, [][]float64{{}})
+	}
 }
 
 func c19History(c *core.Ctx) {
